@@ -309,6 +309,7 @@ def units(tier):
     for pat in ('SCS', 'SCR', 'RCS', 'RCR'):
         us += [('riemann/%s/side' % pat, {'kind': 'ri', 'pat': pat, 'fam': 'side'}), ('riemann/%s/states' % pat, {'kind': 'ri', 'pat': pat, 'fam': 'states'})]
     us.append(('mader', {'kind': 'ma'}))
+    us.append(('sdrz', {'kind': 'sdrz'}))
     us += [('sedov/geometry=%d' % j_, {'kind': 'sedov', 'key': j_}) for j_ in (1, 2, 3)]
     us.append(('bounded', {'kind': 'bd', 'tier': tier}))
     return us
@@ -318,6 +319,9 @@ def run_unit(name, kind, key=None, pat=None, fam=None, tier='quick'):
     if kind == 'hy': return unit_hydro(key)
     if kind == 'ri': return unit_riemann(pat, fam)
     if kind == 'ma': return unit_mader()
+    if kind == 'sdrz':
+        from props import sdrz_kit
+        return sdrz_kit.unit_admissible()
     if kind == 'sedov':
         from props import sedov_kit
         return sedov_kit.unit_shock('C17', key)
